@@ -994,8 +994,14 @@ def c20(ctx):
             'connected': ['factory %d' % prof, 'build a0', 'sethandlers 0 7', 'connect 0 %s 5 31 0' % s_tok('c'), 'recv 0 20020000', 'setwin 0 16']
                          + (['publish 0 %s b:41 1 0' % s_tok('t'), 'publish 0 %s b:42 2 0' % s_tok('u')] if prof != 1 else []) + (['subscribe 0 %s 1' % s_tok('s')] if prof != 2 else []),
         }
+        if prof != 1:
+            # messages held back although the window has room (it was enlarged after they were queued; setWindowSize does not refill): a refused call
+            # must not set them moving -- and the same on a persistent session's next connection, still CONNECTING
+            stages['queued-with-room'] = ['factory %d' % prof, 'build a0', 'sethandlers 0 7', 'connect 0 %s 0 311 0' % s_tok('c'), 'recv 0 20020000', 'setwin 0 1'] \
+                + ['publish 0 %s b:4%d 1 0' % (s_tok('q%d' % i), i) for i in range(4)] + ['setwin 0 3']
+            stages['resumed-connecting'] = stages['queued-with-room'] + ['lost 0 lostc', 'build a0', 'sethandlers 1 7', 'setwin 1 4', 'connect 1 %s 0 311 0' % s_tok('c')]
         for name, pre in stages.items():
-            for (c, model_ok) in calls(0):
+            for (c, model_ok) in calls(1 if name == 'resumed-connecting' else 0):
                 (scen if model_ok else scen_nomodel).append(('%d-%s' % (prof, name), pre + [c]))
             if name == 'idle':
                 for c in connects(0):
